@@ -85,6 +85,7 @@ def strategy_impl(draw, tier):
         "to_extra": {n: draw(st.sampled_from(by_name[n]["positions"])) for n in names if n not in op_axes and draw(st.booleans())},
         "call_boundary": call_boundary,
         "call_fill": call_fill,
+        "reverse_mappings": draw(st.booleans()),  # list the entries of every mapping argument in the opposite order
     }
 
 
@@ -102,15 +103,16 @@ def spell_axis(op_axes, spelling):
 
 def call_kwargs(case, to):
     kw = {}
+    rev = bool(case.get("reverse_mappings"))
     if to is not None:
         if case["to_spelling"] == "scalar":
             kw["to"] = next(iter(to.values()))
         else:
-            kw["to"] = dict(case.get("to_extra") or {}, **to)
+            kw["to"] = build.copy_arg(dict(case.get("to_extra") or {}, **to), rev)
     if case["call_boundary"] is not None:
-        kw["boundary"] = build.copy_arg(case["call_boundary"])
+        kw["boundary"] = build.copy_arg(case["call_boundary"], rev)
     if case["call_fill"] is not None:
-        kw["fill_value"] = build.copy_arg(case["call_fill"])
+        kw["fill_value"] = build.copy_arg(case["call_fill"], rev)
     return kw
 
 
